@@ -1,17 +1,24 @@
 """C11 — cross/internal measures of interacting networks match sub-blocks.
 
 proof  : lean/Pyunicorn/Properties/C11.lean (kernel loops = sums over unordered pairs,
-         triples = C(k,2), dense = sparse, n.s.i. kernels = published double sums,
-         block order, group-exchange symmetry, whole-network limits)
+         triples = C(k,2), dense = sparse, n.s.i. kernels and methods = published double sums,
+         block order / transposition, group-exchange symmetry, order independence of the
+         triangular loops, APL = mean over reachable pairs, whole-network limits against the
+         model of Network (Model/Net.lean), loop bounds and normalisations regenerated from the
+         source by translate/arith_C11.json)
 tie    : correspondence of the Lean model (lean/Pyunicorn/Model/Cross.lean) with the four
          compiled kernels at the kernel boundary and with every cross_/internal_/nsi_
          method of InteractingNetworks on the same inputs (exact for integer outputs,
-         1e-9 relative for float outputs computed from dyadic data)
+         1e-9 relative for float outputs computed from dyadic data); the methods of a case are
+         called in random order on one long-lived object per graph (call histories); both
+         groups = all nodes included; gen_arith translator
 search : the definitions evaluated in `fractions.Fraction` on M[L1][:, L2] blocks of an
          adjacency / path-length / attribute matrix computed by the harness itself;
          both argument orders; dense vs `_sparse`; both groups = all nodes vs the
-         single-network method; list vs numpy-array node lists; CoupledClimateNetwork
-         wrappers
+         single-network method; list vs numpy-array node lists; twins constructed from other
+         dtypes / layouts (bit-identical) and rescaled by powers of two (exactly equivariant);
+         returned arrays not aliased; library state intact after the history; every
+         CoupledClimateNetwork wrapper incl. link_attribute; subnetwork; betweenness
 """
 import contextlib
 import io
@@ -695,16 +702,22 @@ def run(ctx):
     ctx.rule = ("graphs: all undirected on 2-3 nodes, all directed on 2, "
                 f"{'8 sampled' if quick else 'all'} on 4, structured (empty/complete/path/star/"
                 "two components/cycle) on 4-6, random undirected/directed on 3-6 nodes, random on "
-                "7-14; dyadic node weights and link attributes; groups: all ordered bipartitions "
+                "7-14; dyadic node weights and link attributes k/4, for 30% of the graphs m*2^e with "
+                "m<8, |e|<=6; groups: all ordered bipartitions "
                 f"(n<=5{'; 24 sampled for n=6' if quick else ' and n=6'}) with lists in shuffled "
-                "order + disjoint non-covering pairs; distinct = distinct (graph, weights, L1, L2); "
+                "order + disjoint non-covering pairs + both groups = a permutation of all nodes; "
+                "methods of a case called in random order on one object per graph; "
+                "distinct = distinct (graph, weights, L1, L2); "
                 "non-trivial = graph has a link and both groups together have >= 3 nodes")
     ctx.trusted = common.DEFAULT_TRUSTED + [
         "Network.path_lengths / igraph distances (C03) are not modelled: the model and the oracle "
         "receive the harness's own Floyd-Warshall matrix, which is compared with the "
         "implementation's blocks",
         "interregional_betweenness (delegate of cross_/internal_betweenness) is checked by the "
-        "oracle only"]
+        "oracle only, nsi_cross_betweenness against Network.nsi_betweenness of a fresh object",
+        "Pyunicorn.Net (model of Network.degree / average_path_length / closeness / "
+        "local_clustering / transitivity used by the whole_* theorems) is tied to the "
+        "implementation by C03's correspondence, not by this check"]
     ctx.proofs()
 
     reqs, metas = [], []
@@ -870,7 +883,7 @@ def run(ctx):
         oracle_case(ctx, c, L1, L2, res, resw)
     relations(ctx, dcases, dres, IN, quick)
     twin_checks(ctx, dcases, dres, IN, quick)
-    alias_checks(ctx, dcases, quick)
+    alias_checks(ctx, cases, quick, ndisjoint)
     betweenness_checks(ctx, dcases, quick)
     ccn_checks(ctx, quick)
     frame_checks(ctx, nets)
@@ -1136,7 +1149,7 @@ def exact_equal(a, b):
 
 def twin_checks(ctx, cases, impl_results, IN, quick):
     rng = ctx.rng
-    frac = 0.06 if quick else 0.12
+    frac = 0.06 if quick else 0.25
     for (c, L1, L2), (res, _) in zip(cases, impl_results):
         if rng.random() > frac:
             continue
@@ -1210,10 +1223,12 @@ BLOCK_GETTERS = ["cross_adjacency", "cross_adjacency_sparse", "internal_adjacenc
                  "internal_path_lengths", "cross_degree", "nsi_cross_degree", "cross_closeness"]
 
 
-def alias_checks(ctx, cases, quick):
+def alias_checks(ctx, cases, quick, ndisjoint):
     rng = ctx.rng
-    for c, L1, L2 in cases:
-        if rng.random() > (0.05 if quick else 0.1):
+    for ci, (c, L1, L2) in enumerate(cases):
+        # (the cases with both groups = all nodes are the ones where a sub-block could be the
+        #  library's own matrix)
+        if ci < ndisjoint and rng.random() > (0.05 if quick else 0.2):
             continue
         attr = "la" if (rng.random() < 0.5 and any(any(r) for r in c.A)) else None
         t = impl_table(c.net, L1, L2, attr)
